@@ -25,6 +25,24 @@ func c14Case(ctx *core.Ctx, i int) *Case {
 	if c.K.Compression == "zstd" && c.K.Level >= 2 {
 		c.K.Level = r.Intn(2) // cost bound, see MakeCase
 	}
+	// one case in ten has chunks whose compressed form exceeds 64 KiB (incompressible 40 KB payloads,
+	// 200 KB chunk size) and one record above 1 MiB: size thresholds in the write path
+	if i%10 == 3 {
+		c.K.Chunked = true
+		c.K.ChunkSize = 200 << 10
+		n := 0
+		for k := range c.W.Ops {
+			if m := c.W.Ops[k].Message; m != nil && n < 12 {
+				m.Data = make([]byte, 40000+r.Intn(2000))
+				r.Read(m.Data)
+				if n == 5 {
+					m.Data = make([]byte, 1<<20+5000)
+					r.Read(m.Data)
+				}
+				n++
+			}
+		}
+	}
 	// one case in eight carries a payload larger than the bufio/io.Copy block sizes
 	if i%8 == 0 {
 		for k := range c.W.Ops {
